@@ -50,7 +50,7 @@ def plan(tier):
     if tier == "thorough":
         return dict(runs=30000, wall_budget=1500, per_run_timeout=120, selftest=24, shrink_evals=300,
                     shrink_seconds=120)
-    return dict(runs=480, wall_budget=240, per_run_timeout=90, selftest=6, shrink_evals=120, shrink_seconds=45)
+    return dict(runs=480, wall_budget=240, per_run_timeout=240, selftest=6, shrink_evals=120, shrink_seconds=45)
 
 
 class Instance:
